@@ -186,3 +186,9 @@ def nontrivial(c, o):
 
 def key(c):
     return json.dumps(c, sort_keys=True)
+
+
+def generated(tier):
+    """source-derived obligations (G4 formulas): regenerated from /repo's current source text on every run"""
+    from ..translate.tables import obligations
+    return obligations("C10")
